@@ -251,7 +251,11 @@ static void hp_step(char **w, int n)
 
 /* ------------------------------------------------ List / StatList / list_sort */
 #define DL_MAXNODE 10100
-struct DN { struct List l; ull key; unsigned st; unsigned rank; };
+/* the element type has its link member at a NON-ZERO offset (container_of really subtracts) */
+struct DN { long pad[3]; struct List l; ull key; unsigned st; unsigned rank; };
+#define DN_OF(p) container_of(p, struct DN, l)
+/* and a view with the link member first, for the typed helpers with offset 0 */
+struct DN0 { struct List node; };
 static struct DN *dn;                 /* dn[1], dn[2]: plain heads; items 5.. */
 static struct StatList dsl[5];        /* dsl[3], dsl[4] */
 static unsigned dmax;
@@ -266,7 +270,7 @@ static ull dl_id(const struct List *p)
 	if (!p) return 0;
 	if (p == &dsl[3].head) return 3;
 	if (p == &dsl[4].head) return 4;
-	return (ull)((const struct DN *)p - dn);
+	return (ull)(DN_OF(p) - dn);
 }
 static void dl_reset(void)
 {
@@ -302,7 +306,7 @@ static void dl_tail(void)
 }
 static int dl_cmp(const struct List *a, const struct List *b)
 {
-	ull x = ((const struct DN *)a)->key, y = ((const struct DN *)b)->key;
+	ull x = DN_OF(a)->key, y = DN_OF(b)->key;
 	return x < y ? -1 : x > y;
 }
 static int is_head(ull h) { return h >= 1 && h <= 4; }
@@ -346,6 +350,20 @@ static void dl_step(char **w, int n)
 		dn[a].st = 1;
 		if (h >= 3) statlist_remove(&dsl[h], &dn[a].l); else list_del(&dn[a].l);
 		printf("ok"); dl_tail();
+	} else if (n == 3 && !strcmp(w[0], "popt") && parse_u(w[1], &a) && parse_u(w[2], &b)) {
+		/* list_pop_type over an element type with the link at offset b ? 24 : 0; NULL on empty */
+		if (!((a == 1 || a == 2) && b <= 1)) { printf("bad-op"); return; }
+		if (b) {
+			struct DN *e = list_pop_type(&dn[a].l, struct DN, l);
+			if (!e) printf("null");
+			else if (e < dn + 5 || e > dn + dmax) printf("garbage");
+			else { e->st = 1; printf("%llu", (ull)(e - dn)); }
+		} else {
+			struct DN0 *e = list_pop_type(&dn[a].l, struct DN0, node);
+			if (!e) printf("null");
+			else { DN_OF(&e->node)->st = 1; printf("%llu", dl_id(&e->node)); }
+		}
+		dl_tail();
 	} else if (n == 2 && parse_u(w[1], &a) && (!strcmp(w[0], "pop") || !strcmp(w[0], "first") || !strcmp(w[0], "last")
 			|| !strcmp(w[0], "empty") || !strcmp(w[0], "sort") || !strcmp(w[0], "dump"))) {
 		struct List *head, *el;
@@ -353,7 +371,7 @@ static void dl_step(char **w, int n)
 		head = dl_ptr(a);
 		if (!strcmp(w[0], "pop")) {
 			el = (a <= 2) ? list_pop(head) : statlist_pop(&dsl[a]);
-			if (el) ((struct DN *)el)->st = 1;
+			if (el) DN_OF(el)->st = 1;
 			put_ptr(el); dl_tail();
 		} else if (!strcmp(w[0], "first")) {
 			put_ptr((a <= 2) ? list_first(head) : statlist_first(&dsl[a])); dl_tail();
@@ -365,11 +383,11 @@ static void dl_step(char **w, int n)
 			unsigned r = 0, cnt = 0;
 			int sorted = 1, stable = 1;
 			struct DN *pe = NULL;
-			for (el = head->next; el != head && cnt < dmax + 1; el = el->next, cnt++) ((struct DN *)el)->rank = ++r;
+			for (el = head->next; el != head && cnt < dmax + 1; el = el->next, cnt++) DN_OF(el)->rank = ++r;
 			list_sort(head, dl_cmp);
 			cnt = 0;
 			for (el = head->next; el != head && cnt < dmax + 1; el = el->next, cnt++) {
-				struct DN *e = (struct DN *)el;
+				struct DN *e = DN_OF(el);
 				if (pe) {
 					if (pe->key > e->key) sorted = 0;
 					if (pe->key == e->key && !(pe->rank < e->rank)) stable = 0;
@@ -381,7 +399,7 @@ static void dl_step(char **w, int n)
 			unsigned cnt = 0;
 			printf("dump ");
 			for (el = head->next; el != head && cnt < dmax + 1; el = el->next, cnt++)
-				printf("%s%llu/%llu", cnt ? "," : "", dl_id(el), ((struct DN *)el)->key);
+				printf("%s%llu/%llu", cnt ? "," : "", dl_id(el), DN_OF(el)->key);
 			printf(" | ");
 			cnt = 0;
 			for (el = head->prev; el != head && cnt < dmax + 1; el = el->prev, cnt++)
@@ -466,6 +484,9 @@ static void sh_tail(void)
 		ih = fnvi(fnvi(ih, sh_at(i)->next), sh_at(i)->prev);
 	printf(" ## r=%" PRIx64, ih);
 }
+/* element views for the typed helper: link member at offset 24 / at offset 0 */
+struct SHE24 { long pad[3]; struct SHList node; };
+struct SHE0 { struct SHList node; };
 static void sh_put(const struct SHList *p)
 {
 	if (!p) printf("null");
@@ -480,6 +501,21 @@ static void sh_step(char **w, int n)
 		if (!(a % 8 == 0 && a <= 64 && b % 8 == 0 && b >= 16 && b <= 120 && c >= 3 && c <= 64)) { printf("bad-op"); return; }
 		sh_setup((unsigned)a, (unsigned)b, (unsigned)c);
 		printf("ok"); sh_tail();
+	} else if (n == 3 && !strcmp(w[0], "popt") && parse_u(w[1], &a) && parse_u(w[2], &b)) {
+		/* shlist_pop_type over an element type with the link at offset b ? 24 : 0; NULL on empty */
+		struct SHList *el;
+		if (!(a <= 1 && b <= 1)) { printf("bad-op"); return; }
+		if (b) {
+			struct SHE24 *e = shlist_pop_type(sh_at(a), struct SHE24, node);
+			if (!e) { printf("null"); sh_tail(); return; }
+			el = (struct SHList *)((char *)e + offsetof(struct SHE24, node));
+		} else {
+			struct SHE0 *e = shlist_pop_type(sh_at(a), struct SHE0, node);
+			if (!e) { printf("null"); sh_tail(); return; }
+			el = &e->node;
+		}
+		if (sh_on_grid(el)) sh_st[sh_slot(el)] = 1;
+		sh_put(el); sh_tail();
 	} else if (n == 2 && !strcmp(w[0], "node") && parse_u(w[1], &a)) {
 		if (!(a >= 2 && a < sh_n && sh_st[a] <= 1)) { printf("bad-op"); return; }
 		shlist_init(sh_at(a)); sh_st[a] = 1;
@@ -505,6 +541,20 @@ static void sh_step(char **w, int n)
 		free(tmp);
 		sh_off = (unsigned)a;
 		printf("ok"); sh_tail();
+	} else if (n == 3 && !strcmp(w[0], "popt") && parse_u(w[1], &a) && parse_u(w[2], &b)) {
+		/* list_pop_type over an element type with the link at offset b ? 24 : 0; NULL on empty */
+		if (!((a == 1 || a == 2) && b <= 1)) { printf("bad-op"); return; }
+		if (b) {
+			struct DN *e = list_pop_type(&dn[a].l, struct DN, l);
+			if (!e) printf("null");
+			else if (e < dn + 5 || e > dn + dmax) printf("garbage");
+			else { e->st = 1; printf("%llu", (ull)(e - dn)); }
+		} else {
+			struct DN0 *e = list_pop_type(&dn[a].l, struct DN0, node);
+			if (!e) printf("null");
+			else { DN_OF(&e->node)->st = 1; printf("%llu", dl_id(&e->node)); }
+		}
+		dl_tail();
 	} else if (n == 2 && parse_u(w[1], &a) && (!strcmp(w[0], "pop") || !strcmp(w[0], "first") || !strcmp(w[0], "last")
 			|| !strcmp(w[0], "empty") || !strcmp(w[0], "dump"))) {
 		struct SHList *head, *el;
